@@ -5,6 +5,7 @@
 package main
 
 import (
+	"runtime"
 	"bytes"
 	"fmt"
 	"html/template"
@@ -51,7 +52,9 @@ func main() {
 		}
 		dumps = append(dumps, sb.String())
 	}
-	opts := &stack.Opts{NameArguments: true}
+	// path guessing on, with several local roots, so that root detection runs
+	// in every scan on the shared options value
+	opts := &stack.Opts{NameArguments: true, GuessPaths: true, LocalGOROOT: runtime.GOROOT(), LocalGOPATHs: []string{"/nonexistent/gp", "/nonexistent/a/longer/gopath", "/nonexistent/mid/gp"}}
 	shared, _, _ := stack.ScanSnapshot(strings.NewReader(dumps[0]), io.Discard, opts)
 	levels := []stack.Similarity{stack.ExactFlags, stack.ExactLines, stack.AnyPointer, stack.AnyValue}
 	// concurrent phase first (so that lazily initialised shared state, if any,
